@@ -196,3 +196,7 @@ pub(crate) fn rebuild_index_from_compaction_sidecar_v1(
 
     rebuild_index_from_events_v1(index_path, continuity_id, &events)
 }
+
+#[cfg(kani)]
+#[path = "/verif/harness/ripd/compaction_checkpoint_index.rs"]
+mod verif_kani;
